@@ -188,14 +188,15 @@ def execute(plan: dict, replay: Optional[dict] = None, keep_graph: bool = False,
         ro.status = "harness_error"
     finally:
         ro.task_errors = list(K.task_errors)
-        ro.decisions, ro.widths = list(K.decisions), list(K.widths)
-        ro.task_seq = {k: list(v) for k, v in K.task_seq.items()}
         stall = K.stall
         try:
             ro.stats = K.end_run()
         except km.HarnessError as e:
             ro.harness_error = str(e)
             ro.status = "harness_error"
+        # captured after end_run: the final drain takes decisions too, and a replay must be able to follow them
+        ro.decisions, ro.widths = list(K.decisions), list(K.widths)
+        ro.task_seq = {k: list(v) for k, v in K.task_seq.items()}
         if stall is not None and stall.kind == "replay-diverged":
             ro.status = "replay_diverged"
             ro.detail = stall.detail
